@@ -144,6 +144,62 @@ fn exec(omega: Vec<u32>, gens: Vec<Vec<usize>>, adds: Vec<Vec<usize>>, qs: Vec<V
     }
 }
 
+
+/// the e-graph path of the property: the symmetries of a class are asserted one after the other as unions of a leaf term
+/// with permuted copies of itself (`Group::add` under `EGraph::union`); every further permuted copy must compare equal
+/// exactly on the generated subgroup.  Model: membership in `mk (identity Ω) gens` (`contains_iff`).
+fn exec_egs(n: usize, gens: Vec<Vec<usize>>) -> Case {
+    use crate::langs::Main;
+    use crate::terms::*;
+    let omega: Vec<u32> = (1..=n as u32).map(|i| 4 * i).collect();
+    let qs = perms_of(n);
+    let f = |v: &Vec<Vec<usize>>| v.iter().map(|p| enc_perm(&omega, p)).collect::<Vec<_>>().join("/");
+    let line = format!("egs {};{};{}", omega.iter().map(|x| x.to_string()).collect::<Vec<_>>().join(","), f(&gens), f(&qs));
+    let expect = closure_size(n, &gens);
+    let nontrivial = expect > 1 && expect < (1..=n).product::<usize>();
+    let om = omega.clone();
+    let r = in_fresh_thread(move || {
+        intern_names();
+        let mut tags = Vec::new();
+        let v = match n {
+            2 => 7,
+            3 => 8,
+            _ => 9,
+        };
+        let leaf = |p: &Vec<usize>| ATerm { v, fields: p.iter().map(|&i| CField::Slot(om[i])).collect(), children: vec![] };
+        let idp: Vec<usize> = (0..n).collect();
+        let mut eg: EGraph<Main> = EGraph::default();
+        let t = eg.add_expr(to_recexpr::<Main>(&leaf(&idp)));
+        for g in &gens {
+            let tp = eg.add_expr(to_recexpr::<Main>(&leaf(g)));
+            eg.union(&t, &tp);
+        }
+        let cont: String = qs
+            .iter()
+            .map(|q| {
+                let tq = eg.add_expr(to_recexpr::<Main>(&leaf(q)));
+                match guarded(|| eg.eq(&t, &tq)) {
+                    Ok(x) => b(x).to_string(),
+                    Err(_) => "panic".to_string(),
+                }
+            })
+            .collect();
+        let lead = eg.find_applied_id(&t).id;
+        let count = eg.verif_group_count(lead);
+        if count != expect {
+            tags.push("viol:class-group-size".to_string());
+        }
+        if eg.slots(lead).len() != n {
+            tags.push("viol:slot-lost".to_string());
+        }
+        (vec![cont, count.to_string()], tags)
+    });
+    match r {
+        Ok((outs, tags)) => Case { line, impl_out: outs.join(";"), nontrivial, tags },
+        Err(e) => Case { line, impl_out: format!("PANIC {e}"), nontrivial: true, tags: vec!["viol:panic".into()] },
+    }
+}
+
 const OMEGAS: [&[u32]; 6] = [&[4, 8], &[4, 8, 12], &[4, 8, 12, 16], &[2, 6, 10, 14], &[4, 2, 8, 6], &[8, 12, 2]];
 
 pub fn run(ctx: &mut Ctx) {
@@ -182,6 +238,25 @@ pub fn run(ctx: &mut Ctx) {
                 idx += 1;
             }
         }
+    }
+    // e-graph path: all ordered pairs of permutations on 3 and 4 slots, and random ordered triples on 4 slots
+    for n in 3..=maxn.min(4) {
+        let perms = perms_of(n);
+        for a in 1..perms.len() {
+            for b2 in 1..perms.len() {
+                if ctx.mine(idx) {
+                    ctx.emit(exec_egs(n, vec![perms[a].clone(), perms[b2].clone()]));
+                }
+                idx += 1;
+            }
+        }
+    }
+    for _ in 0..ctx.count / 4 {
+        let mut rng = ctx.rng.fork();
+        let perms = perms_of(4);
+        let k = rng.range(2, 4);
+        let gens: Vec<Vec<usize>> = (0..k).map(|_| perms[rng.range(1, perms.len() - 1)].clone()).collect();
+        ctx.emit(exec_egs(4, gens));
     }
     // random: 1-4 generators on 5 and 6 slots
     for _ in 0..ctx.count {
@@ -243,7 +318,21 @@ pub fn run(ctx: &mut Ctx) {
     }
 }
 
+pub fn replay_egs(body: &str) -> Case {
+    let parts: Vec<&str> = body.split(';').collect();
+    let omega: Vec<u32> = parts[0].split(',').map(|x| x.parse().unwrap()).collect();
+    let gens: Vec<Vec<usize>> = if parts[1].is_empty() {
+        vec![]
+    } else {
+        parts[1].split('/').map(|p| p.split(',').map(|x| omega.iter().position(|o| *o == x.parse::<u32>().unwrap()).unwrap()).collect()).collect()
+    };
+    exec_egs(omega.len(), gens)
+}
+
 pub fn replay(body: &str) -> Case {
+    if let Some(b2) = body.strip_prefix("egs ") {
+        return replay_egs(b2);
+    }
     let parts: Vec<&str> = body.split(';').collect();
     let omega: Vec<u32> = parts[0].split(',').map(|x| x.parse().unwrap()).collect();
     let pp = |s: &str| -> Vec<Vec<usize>> {
